@@ -37,6 +37,7 @@ func init() {
 func now() int64 { return vrt.NowNanos() / int64(unit) }
 
 type c20ctx struct {
+	check    string // property id; the worker subcommand is check+"worker"
 	out      *workerOut
 	st       *wStats
 	deadline time.Time
@@ -44,8 +45,48 @@ type c20ctx struct {
 	states   map[string]struct{}
 }
 
+// replayReq is set by `conc replay <file>`: only the named scenario runs, once, under the recorded choices.
+var replayReq *struct {
+	Scenario string
+	Choices  []int
+	Key      string
+	Hit      bool
+	Seen     bool
+}
+
 // explore runs one scenario; check returns "" or (key, detail).
 func (c *c20ctx) explore(name string, onlyBound int, body func(), check func(x *vrt.Exec) (string, string), witness func() any) {
+	judge := func(x *vrt.Exec) (string, string) {
+		for i := 0; i < x.NumThreads(); i++ {
+			if pm := x.ThreadAt(i).Panic; pm != "" {
+				return name + "/panic", "thread " + x.ThreadAt(i).Name + " panicked: " + pm
+			}
+		}
+		if x.Deadlock {
+			return name + "/deadlock", "no thread enabled: " + x.DeadlockInfo
+		}
+		if x.HorizonHit {
+			return name + "/livelock-horizon", "step horizon exceeded"
+		}
+		return check(x)
+	}
+	if r := replayReq; r != nil {
+		if r.Scenario != name {
+			return
+		}
+		r.Seen = true
+		x := vrt.Run(r.Choices, 50000, !thorough, body)
+		key, detail := judge(x)
+		fmt.Printf("replay %s\n  schedule (thread ids): %v\n  observations: %v\n", name, x.Schedule(), witness())
+		if x.Diverged != "" {
+			fmt.Printf("  DIVERGED: %s\n", x.Diverged)
+		}
+		if key != "" {
+			fmt.Printf("  FAIL %s: %s\n", key, detail)
+		}
+		r.Hit = key == r.Key
+		return
+	}
 	c.st.Scenarios++
 	reported := map[string]bool{}
 	outcomes := map[string]bool{}
@@ -53,21 +94,7 @@ func (c *c20ctx) explore(name string, onlyBound int, body func(), check func(x *
 	stop := false
 	e.StopEarly = func() bool { return stop }
 	e.Check = func(x *vrt.Exec) {
-		key, detail := "", ""
-		for i := 0; i < x.NumThreads(); i++ {
-			if pm := x.ThreadAt(i).Panic; pm != "" {
-				key, detail = name+"/panic", "thread "+x.ThreadAt(i).Name+" panicked: "+pm
-			}
-		}
-		if key == "" && x.Deadlock {
-			key, detail = name+"/deadlock", "no thread enabled: "+x.DeadlockInfo
-		}
-		if key == "" && x.HorizonHit {
-			key, detail = name+"/livelock-horizon", "step horizon exceeded"
-		}
-		if key == "" {
-			key, detail = check(x)
-		}
+		key, detail := judge(x)
 		w := witness()
 		o := fmt.Sprint(w)
 		outcomes[o] = true
@@ -77,8 +104,20 @@ func (c *c20ctx) explore(name string, onlyBound int, body func(), check func(x *
 		if key != "" && !reported[key] {
 			reported[key] = true
 			stop = true
-			c.out.finding(wFinding{key, detail, map[string]any{"scenario": name, "observations": w, "schedule_thread_ids": append([]int16{}, x.Schedule()...)},
-				map[string]any{"engine": "conc", "check": "C20", "scenario": name, "choices": append([]int{}, e.LastChoices...)}})
+			choices := append([]int{}, e.LastChoices...)
+			sched := append([]int16{}, x.Schedule()...)
+			// a violation is believed only if the same choice sequence fails the same way five more times
+			for i := 0; i < 5; i++ {
+				x2 := vrt.Run(choices, 50000, !thorough, body)
+				k2, _ := judge(x2)
+				if k2 != key || fmt.Sprint(witness()) != o || x2.Diverged != "" {
+					c.st.Diverged = fmt.Sprintf("%s: violation %q not reproduced identically on re-execution %d (got %q %s)", name, key, i+1, k2, x2.Diverged)
+					return
+				}
+			}
+			c.st.Extra["violations_reexecuted_5x_identically"]++
+			c.out.finding(wFinding{key, detail, map[string]any{"scenario": name, "observations": w, "schedule_thread_ids": sched},
+				map[string]any{"engine": "conc", "check": c.check, "sub": c.check + "worker", "shard": c.st.Shard, "scenario": name, "choices": choices}})
 		}
 	}
 	e.Explore(body)
@@ -100,7 +139,7 @@ func (c *c20ctx) explore(name string, onlyBound int, body func(), check func(x *
 }
 
 func c20worker(arg string) {
-	c := &c20ctx{out: newWorkerOut(), st: &wStats{Shard: arg, MinBound: -1, Extra: map[string]int{}}, states: map[string]struct{}{}}
+	c := &c20ctx{check: "C20", out: newWorkerOut(), st: &wStats{Shard: arg, MinBound: -1, Extra: map[string]int{}}, states: map[string]struct{}{}}
 	c.deadline = time.Now().Add(3 * time.Minute)
 	c.budget = 60000
 	if thorough {
@@ -166,7 +205,9 @@ func c20delay(c *c20ctx) {
 				return "Delay/never-runs", fmt.Sprintf("scheduled at %d, never stopped successfully, clock went past %d, callback did not run", t0, t0+5)
 			}
 			return "", ""
-		}, func() any { return fmt.Sprintf("t0=%d ran=%d runs=%d stop=%t/%t@%d", t0, ran, runs, stopped, stopRes, stopAt) })
+		}, func() any {
+			return fmt.Sprintf("t0=%d ran=%d runs=%d stop=%t/%t@%d", t0, ran, runs, stopped, stopRes, stopAt)
+		})
 	}
 }
 
